@@ -27,8 +27,12 @@ COMPONENTS = {"real": ["EoN.Gillespie_complex_contagion", "EoN._ListDict_", "EoN
               "stub": ["random source (SimRandom scripted)", "user callbacks rate_function/transition_choice/get_influence_set (harness models with recording spies)"]}
 
 
+# "The simulation stops exactly when all rates are zero or tmax is reached": a seeded batch of
+# bounded-horizon runs that never finishes is a violation of C15 itself
+TIMEOUT_IS_VIOLATION = ("law",)
+TIMEOUT_NOTE = "every law configuration has tmax = 3, so each call must return"
 LAW_N = {"quick": 10000, "thorough": 100000}
-LAW_CFGS = {"quick": 12, "thorough": 48}
+LAW_CFGS = {"quick": 18, "thorough": 54}
 LAW_BATCHES = 4
 
 
@@ -45,7 +49,8 @@ def law_cfgs(seed, tier):
     while len(out) < LAW_CFGS[tier] and k < 2000:
         rng = random.Random(framework.derive_int(seed, PROPERTY, "lawcfg", k))
         k += 1
-        case = contagion.gen_complex_case(rng)
+        # every user model gets a law configuration
+        case = contagion.gen_complex_case(rng, model=contagion.COMPLEX_MODELS[len(out) % len(contagion.COMPLEX_MODELS)])
         if not (2 <= len(case["graph"]["nodes"]) <= 5) or not case["graph"]["edges"]:
             continue
         case["tmin"] = 0
